@@ -7,6 +7,6 @@ git -C /repo worktree add -q --detach $W HEAD || exit 9
 ( cd $W && git apply "$P" ) || { echo "patch failed to apply"; git -C /repo worktree remove --force $W; exit 9; }
 cd /verif
 for c in "$@"; do
-  VERIF_REPO=$W ./check $c --tier quick 2>&1 | grep -v "^KNOWN-FINDING" | tail -4
+  VERIF_REPO=$W VERIF_EVIDENCE_DIR=/tmp/wt/reg_evidence ./check $c --tier quick 2>&1 | grep -v "^KNOWN-FINDING" | tail -4
 done
 git -C /repo worktree remove --force $W
